@@ -24,6 +24,7 @@ decoder rebuilds the set through the hash oracle; iteration order ≠ storage or
 -/
 import CtyModel.Lemmas.JsonValRT
 import CtyModel.Lemmas.JsonValReject
+import CtyModel.Lemmas.JsonValDoc
 namespace CtyModel
 namespace C15
 open Ty JsonVal
@@ -148,6 +149,96 @@ example :
     wf t = true ∧ wf v.ty = true ∧ hasCapsule v.ty = false ∧ setFree v.ty = true ∧
     «matches» t v.ty = true ∧ wfP v.ty v.v = true ∧ v.v.containsMarked = true ∧
     v.v.whollyKnown = false ∧ hasInf v.v = true := by decide
+
+/-! ## Documents -/
+
+/-- THE FULL STATEMENT of the document clause ("for any valid JSON document with
+representable numbers and no conflicting duplicate keys the implied type is the document's
+structural type, unmarshalling with it succeeds and re-marshalling gives the same document
+up to key order, number spelling and string normalization").  FALSE of the code as it
+exists (`doc_roundtrip_counterexample`). -/
+def doc_roundtrip : Prop :=
+  ∀ (env : JEnv) (top : Bool) (d : Json), docValid env d = true → docCheckFull env top d = true
+
+/-- What holds: for every document (any depth) whose object keys are distinct, ascending
+and normalised, whose strings are normalised and whose numbers are representable, the
+implied type IS the structural type, unmarshalling with it succeeds at top level and
+nested, the value has exactly that type, and re-marshalling returns the document up to
+number spelling only (no reordering is needed for such documents). -/
+theorem doc_roundtrip_partial (env : JEnv) (top : Bool) (d : Json) (h : docOK env d = true) :
+    impliedType env d = .ok (structTy d) ∧
+    ∃ v d', unmarshal env top d (structTy d) = .ok v ∧ v.ty = structTy d ∧
+      marshal env v (structTy d) = .ok d' ∧ jsonEquiv d' d = true := by
+  obtain ⟨p, d', hi, hu, hm, hk, hmar, he⟩ := doc_rt env d h
+  refine ⟨hi, ⟨structTy d, p⟩, d', hu top, rfl, ?_, he⟩
+  unfold marshal
+  rw [marshalEntry_same (structTy d) p _ hm hk]
+  exact hmar
+
+/-- the same, as the check the harness evaluates -/
+theorem doc_roundtrip_partial_check (env : JEnv) (top : Bool) (d : Json) (h : docOK env d = true) :
+    docCheck env top d = true := by
+  obtain ⟨hi, v, d', hu, _, hm, he⟩ := doc_roundtrip_partial env top d h
+  simp [docCheck, hi, hu, hm, he]
+
+/-- an environment in which "e" + combining acute normalises to "é" (as NFC does) -/
+def envNFC : JEnv :=
+  { norm := fun s => if s = "e\u0301" then "\u00e9" else s, hkey := fun _ _ => none }
+
+/-- COUNTEREXAMPLE: `{"e\u0301": null}`.  `ImpliedType` normalises the key (the attribute is
+named "é"), `unmarshalObject` looks the raw key up and reports an unsupported attribute. -/
+theorem doc_roundtrip_counterexample : ¬ doc_roundtrip := fun h =>
+  absurd (h envNFC true (.obj ["e\u0301"] [.null]) (by decide)) (by decide)
+
+/-- the hypothesis of the partial theorem is satisfiable by a nested document with a null,
+an empty array, an empty object, a fraction and an exponent spelling -/
+example : docOK env0 (.obj ["a", "b", "c"] [.arr [.null, .num "1.50", .arr []], .obj [] [], .num "1e-3"]) = true := by
+  decide +kernel
+
+/-! ## The implied type -/
+
+/-- `ImpliedType` never panics, and the kind of its result is the kind of the document:
+null ↦ the placeholder, bool/number/string ↦ the primitive type, an array ↦ a tuple with
+one element type per member (the implied type of that member), an object ↦ an object
+type without optional attributes. -/
+theorem implied_type_shape (env : JEnv) (j : Json) :
+    (∀ w, impliedType env j ≠ .panic w) ∧
+    (∀ t, impliedType env j = .ok t →
+      match j with
+      | .null => t = .dyn
+      | .bool _ => t = .bool
+      | .num _ => t = .number
+      | .str _ => t = .string
+      | .arr xs => ∃ ts, t = .tuple ts ∧ ts.length = xs.length ∧
+          ∀ i (h : i < xs.length) (h' : i < ts.length), impliedType env xs[i] = .ok ts[i]
+      | .obj _ _ => ∃ ns ts, t = .object ns ts (ns.map fun _ => false)) := by
+  refine ⟨implied_no_panic env j, ?_⟩
+  intro t ht
+  cases j with
+  | null => simpa [impliedType] using ht.symm
+  | bool _ => simpa [impliedType] using ht.symm
+  | num _ => simpa [impliedType] using ht.symm
+  | str _ => simpa [impliedType] using ht.symm
+  | arr xs =>
+    simp only [impliedType] at ht
+    cases h : impliedAll env xs with
+    | ok ts =>
+      simp [h, Res.map] at ht
+      obtain ⟨hl, hi⟩ := impliedAll_length env xs ts h
+      exact ⟨ts, ht.symm, hl, hi⟩
+    | _ => simp [h, Res.map] at ht
+  | obj ks vs =>
+    simp only [impliedType] at ht
+    split at ht
+    · split at ht
+      · simp at ht
+      · simp at ht; exact ⟨_, _, ht.symm⟩
+    · rename_i r hr
+      cases hrr : impliedMembers env ks vs [] [] <;> simp_all [errOf]
+
+/-- for the documents of `doc_roundtrip_partial` the implied type is the structural type -/
+theorem implied_type_structural (env : JEnv) (d : Json) (h : docOK env d = true) :
+    impliedType env d = .ok (structTy d) := (doc_roundtrip_partial env true d h).1
 
 /-! ## Non-vacuity -/
 
